@@ -380,6 +380,8 @@ impl Scala {
         self.write_comments(w, 1, &f.comments)?;
 
         let ty = match f.type_override(SupportedLanguage::Scala) {
+            // the override names the type; an `Option<T>` field stays optional
+            Some(type_override) if f.ty.is_optional() => format!("Option[{type_override}]"),
             Some(type_override) => type_override.to_owned(),
             None => self
                 .format_type(&f.ty, generic_types)
